@@ -72,6 +72,7 @@ pub fn explore(preemption_bound: Option<usize>, max_branches: usize, body: impl 
 /// schedules; None = always). The bound completed for every model is counted in the evidence.
 pub static MODELS_AT_BOUND_1_ONLY: AtomicU64 = AtomicU64::new(0);
 pub static MODELS_AT_TARGET_BOUND: AtomicU64 = AtomicU64::new(0);
+pub static MODELS_AT_BOUND_2_ONLY: AtomicU64 = AtomicU64::new(0);
 
 pub fn explore_iterative(target: usize, small_at_1: Option<u64>, max_branches: usize, body: impl Fn() + Sync + Send + 'static) -> u64 {
     let body = std::sync::Arc::new(body);
@@ -87,10 +88,22 @@ pub fn explore_iterative(target: usize, small_at_1: Option<u64>, max_branches: u
             return n1;
         }
     }
+    // bound 2 next; a higher target only if the model is still small at bound 2 (otherwise one large
+    // model would use up the budget of the phase and later models would not even get their bound 1)
     let b2 = body.clone();
-    let n2 = explore(Some(target), max_branches, move || b2());
+    let n2 = explore(Some(target.min(2)), max_branches, move || b2());
+    if target <= 2 {
+        MODELS_AT_TARGET_BOUND.fetch_add(1, Ordering::SeqCst);
+        return n1 + n2;
+    }
+    if n2 > 4000 {
+        MODELS_AT_BOUND_2_ONLY.fetch_add(1, Ordering::SeqCst);
+        return n1 + n2;
+    }
+    let b3 = body.clone();
+    let n3 = explore(Some(target), max_branches, move || b3());
     MODELS_AT_TARGET_BOUND.fetch_add(1, Ordering::SeqCst);
-    n1 + n2
+    n1 + n2 + n3
 }
 
 fn explore_inner(b: loom::model::Builder, body: impl Fn() + Sync + Send + 'static) -> u64 {
@@ -313,7 +326,7 @@ fn run(args: &Args, rep: &mut Report) {
             rust_side::c18(args, rep);
             set_phase_budget(if args.thorough() { 600 } else { 120 });
             cside::c18(args, rep);
-            rep.rule = "two and three controlled threads, each running a complete operation sequence (incremental hashing, extended output with seeks, one-shot calls; C: init/update/finalize_seek) on its own instances, interleaved at every kernel entry - and, on the C side, at every load and store of the feature cache, starting from UNDEFINED so that detection itself races - all interleavings by iterative context bounding: every model completely with at most 1 preemption, then with 2 (3 for pairs in the thorough tier) - in the quick tier only for models of at most 110 schedules at bound 1, in the thorough tier for all; kernel entries *and returns* are scheduling points; the Rust side runs on a copy of the crate's source in which every core::sync / std::sync atomic, lock and once-cell operation is a scheduling point as well; every thread's results must equal its results when run alone; on the Rust side every Platform::detect() call is additionally an environment choice that may answer any level up to the best one (all answer sequences with <= 2 deviations); plus N=16 real threads as the first calls of fresh processes, and twelve tasks of one rayon pool calling update_rayon on their own hashers at the same time in a child process with a 60 s limit (both sampling, labelled so); states = distinct schedules / answer sequences; non-trivial = executions with >= 1 context switch or deviation".into();
+            rep.rule = "two and three controlled threads, each running a complete operation sequence (incremental hashing, extended output with seeks, one-shot calls; C: init/update/finalize_seek) on its own instances, interleaved at every kernel entry - and, on the C side, at every load and store of the feature cache, starting from UNDEFINED so that detection itself races - all interleavings by iterative context bounding: every model completely with at most 1 preemption, then with 2 - in the quick tier only for models of at most 110 schedules at bound 1, in the thorough tier for all - and in the thorough tier pairs of threads with 3 where the model has at most 4000 schedules at bound 2; kernel entries *and returns* are scheduling points; the Rust side runs on a copy of the crate's source in which every core::sync / std::sync atomic, lock and once-cell operation is a scheduling point as well; every thread's results must equal its results when run alone; on the Rust side every Platform::detect() call is additionally an environment choice that may answer any level up to the best one (all answer sequences with <= 2 deviations); plus N=16 real threads as the first calls of fresh processes, and twelve tasks of one rayon pool calling update_rayon on their own hashers at the same time in a child process with a 60 s limit (both sampling, labelled so); states = distinct schedules / answer sequences; non-trivial = executions with >= 1 context switch or deviation".into();
             rep.assumptions.push("the cpufeatures crate's own atomics are not intercepted; they are over-approximated by letting detect() answer any level".into());
         }
         _ => {
@@ -339,6 +352,7 @@ fn run(args: &Args, rep: &mut Report) {
     }
     rep.add("loom_models_completed_at_target_preemption_bound", MODELS_AT_TARGET_BOUND.load(Ordering::SeqCst));
     rep.add("loom_models_completed_at_preemption_bound_1_only", MODELS_AT_BOUND_1_ONLY.load(Ordering::SeqCst));
+    rep.add("loom_models_completed_at_preemption_bound_2_only", MODELS_AT_BOUND_2_ONLY.load(Ordering::SeqCst));
     rep.add("loom_models_skipped", skipped);
     rep.add("loom_models_capped", capped);
     rep.add("crate_sync_ops_as_scheduling_points", vshim::OPS.load(Ordering::SeqCst));
